@@ -106,6 +106,19 @@ class PathEval:
                 e2[st.targets[0].id] = v
                 self._block(rest, e2, c2)
             return
+        if isinstance(st, ast.Assign) and len(st.targets) == 1 and isinstance(st.targets[0], ast.Tuple) and \
+                all(isinstance(t_, ast.Name) for t_ in st.targets[0].elts):
+            e2 = dict(env)
+            if isinstance(st.value, ast.Tuple) and len(st.value.elts) == len(st.targets[0].elts):
+                combos = [(cond, e2)]
+                for t_, v_ in zip(st.targets[0].elts, st.value.elts):
+                    combos = [(c2, dict(en, **{t_.id: pv})) for c1, en in combos for c2, pv in self._expr(v_, env, c1)]
+                for c2, en in combos:
+                    self._block(rest, en, c2)
+                return
+            for i, t_ in enumerate(st.targets[0].elts):   # a, b = f(x): opaque components of one value
+                e2[t_.id] = atom(f'{norm_stmt(st.value)}[{i}]')
+            return self._block(rest, e2, cond)
         if isinstance(st, ast.AugAssign) and isinstance(st.target, ast.Name):
             cur = env.get(st.target.id)
             if cur is None:
@@ -137,7 +150,9 @@ class PathEval:
             for c2, v in self._expr(st.value, env, cond):
                 self.results.append((c2, v))
             return
-        if isinstance(st, ast.Raise):
+        if isinstance(st, (ast.Raise, ast.Continue, ast.Break, ast.Pass)):
+            if isinstance(st, ast.Pass):
+                return self._block(rest, env, cond)
             return
         raise AnalysisError(f'poly: statement not modelled: {norm_stmt(st)}')
 
